@@ -307,7 +307,18 @@ def body(chk):
         for _ in range(m):
             lo = 10 ** rng.uniform(-2, 1)
             ivs.append((lo, lo + 10 ** rng.uniform(-2, 0.7)))            # positive: inside the domain of every function
-        x = _I([a for a, _ in ivs], [b for _, b in ivs])
+        # the endpoints reach the constructor in different storage forms: lists, float64 / float32 / integer arrays (same VALUES: the
+        # answer is decided against the values, whatever array type carried them in)
+        storage = ("list", "float64", "float32", "int64", "int32", "float32")[sn % 6]
+        if storage == "float32":
+            ivs = [(float(np.float32(a)), float(np.float32(b))) for a, b in ivs]
+            ivs = [(a, b if b > a else float(np.nextafter(np.float32(a), np.float32(np.inf)))) for a, b in ivs]
+        elif storage.startswith("int"):
+            ivs = [(float(a), float(a + rng.randint(1, 6))) for a in (rng.randint(1, 20) for _ in range(m))]
+        if storage == "list":
+            x = _I([a for a, _ in ivs], [b for _, b in ivs])
+        else:
+            x = _I(np.array([a for a, _ in ivs], dtype=storage), np.array([b for _, b in ivs], dtype=storage))
         seq = rng.sample(["sin", "cos", "exp", "log", "sqrt", "tanh", "abs", "pow", "sin", "cos"], 5)
         held = []
         for f in seq:
@@ -316,7 +327,7 @@ def body(chk):
                 held.append((f, k, call(f, x, k)))
             except Exception as e:
                 chk.report(f"Interval.{f}:session", f"step {len(held) + 1} of a sequence of functions applied to ONE array-valued interval raises {type(e).__name__}: {str(e)[:60]}",
-                           {"kind": "oracle", "intervals": ivs, "sequence": seq})
+                           {"kind": "oracle", "intervals": ivs, "sequence": seq, "endpoint_storage": storage})
                 break
         for step, (f, k, r) in enumerate(held):
             chk.count(f"session-{f}", key=("session", sn, step))
@@ -332,7 +343,7 @@ def body(chk):
                     break
             if bad:
                 chk.report(f"Interval.{f}:session", f"step {step + 1} ({f}) of a sequence of functions applied to ONE array-valued interval, values read after the last step: element {bad[0]}: {bad[1]}",
-                           {"kind": "oracle", "intervals": ivs, "sequence": seq, "k": k})
+                           {"kind": "oracle", "intervals": ivs, "sequence": seq, "k": k, "endpoint_storage": storage})
                 break
     chunks = []
     CH = 300
